@@ -279,3 +279,26 @@ pub fn static_check(root: &Path, shards: usize) -> Vec<String> {
     }
     out
 }
+
+/// Numeric directories under a shard that the shard's segments.idx does not name
+/// (or all numeric directories when there is no index): the precondition of the
+/// "orphan directory" defect, read off the crash tree itself.
+pub fn orphans(root: &Path, shards: usize) -> Vec<String> {
+    let mut out = Vec::new();
+    for s in 0..shards {
+        let sd = root.join(format!("cols/shard-{s}"));
+        let named: std::collections::BTreeSet<String> = match decode_index(&sd.join("segments.idx")) {
+            Ok(es) => es.iter().map(|e| format!("{:05}", e.id)).collect(),
+            Err(_) => Default::default(),
+        };
+        if let Ok(rd) = std::fs::read_dir(&sd) {
+            for e in rd.flatten() {
+                let n = e.file_name().to_string_lossy().into_owned();
+                if seg_label(&n) && e.path().is_dir() && !named.contains(&n) {
+                    out.push(format!("shard-{s}/{n}"));
+                }
+            }
+        }
+    }
+    out
+}
